@@ -18,7 +18,10 @@ def register(M):
     M.new_assoc = new_assoc
 
     def key_eq(ex, m, k1, k2):
-        sh = M.shape(m.kty)
+        try:
+            sh = M.shape(m.kty)
+        except Inconclusive:
+            return M.deep_eq(ex, k1, k2)       # structural equality (derived PartialEq; pointer identity for Source)
         a, b = M.flatten(ex, k1, sh), M.flatten(ex, k2, sh)
         return z3.And(*[x == y for x, y in zip(a, b)]) if a else z3.BoolVal(True)
 
@@ -27,6 +30,11 @@ def register(M):
             if ex.branch(key_eq(ex, m, k, key)):
                 return i
         return None
+
+    @reg('LinkedHashMap::new', 'LinkedHashMap::default')
+    def _(ex, info, a, dty):
+        g = generic_args(dty or '')
+        return Obj('assoc', kty=g[0] if g else '?', vty=g[1] if len(g) > 1 else '?', entries=(), linked=True)
 
     def as_assoc(ex, m, ty=None):
         if isinstance(m, Obj) and m.kind == 'assoc':
@@ -55,7 +63,13 @@ def register(M):
             return M.none(dty)
         old = m.entries[i][1]
         es = list(m.entries)
-        es[i] = (es[i][0], val)
+        if m.d.get('linked'):
+            # linked-hash-map 0.5: inserting an existing key updates the value AND moves the node to the back
+            k0 = es[i][0]
+            del es[i]
+            es.append((k0, val))
+        else:
+            es[i] = (es[i][0], val)
         ex.write_path(cell, path, m.set(entries=tuple(es)))
         return M.some(dty, old)
     M.assoc_insert = assoc_insert
@@ -110,6 +124,10 @@ def register(M):
             ex.write_path(e.cell, e.path, m.set(entries=m.entries + ((e.key, v),)))
         return Ref(e.cell, e.path + (('slot', i),))
 
+    def orders_of(ex, m):
+        return list(range(len(m.entries))) if m.d.get('linked') else orders(ex, len(m.entries))
+    M.orders_of = orders_of
+
     def orders(ex, n):
         """iteration order of a hash map: a symbolic permutation (n <= 3), explored by branching"""
         if n <= 1 or ex.env.get('map_order') == 'insertion':
@@ -134,7 +152,7 @@ def register(M):
         if m.kind != 'assoc':
             raise Inconclusive('iter() on a symbolic map')
         return Obj('iter', items=tuple(Adt('(&K, &V)', {(None, 0): Ref(Cell(m.entries[i][0]), ()), (None, 1): Ref(cell, path + (('slot', i),))})
-                                       for i in orders(ex, len(m.entries))), ty=dty)
+                                       for i in orders_of(ex, m)), ty=dty)
 
     @reg('HashMap::keys')
     def _(ex, info, a, dty):
@@ -221,6 +239,7 @@ def register(M):
                 keep.append(item)
         return Obj('iter', items=tuple(out), ty=dty)
 
+    register_linked_later = True
     # ---------------------------------------------------------------- itertools
     @reg('Itertools::into_group_map_by')
     def _(ex, info, a, dty):
@@ -239,3 +258,9 @@ def register(M):
                 es[i] = (es[i][0], es[i][1].set(items=es[i][1].items + (it,)))
                 cell.v = cur.set(entries=tuple(es))
         return cell.v
+
+
+def register_linked(M):
+    for meth in ('get', 'get_mut', 'insert', 'remove', 'contains_key', 'entry', 'iter', 'iter_mut', 'values', 'values_mut', 'len', 'is_empty', 'keys', 'drain'):
+        if ('HashMap::' + meth) in M.table:
+            M.table['LinkedHashMap::' + meth] = M.table['HashMap::' + meth]
